@@ -1,71 +1,95 @@
 (* Facts about the dimension-generic compiled conversions (generated rfv_nd_d / vfr_nd_d, the ones
-   merge_data calls), proved directly so that C11 does not depend on the other variants. *)
+   merge_data calls), proved directly so that C11 does not depend on the other variants.
+   The generated expressions are first brought to a canonical form by ring / field (so that
+   commuted operands or regrouped constants in the source do not matter); everything else is
+   proved from the canonical forms. *)
 From Coq Require Import Reals Lra.
 From PD Require Import Model.Num Gen.Gen_spherical.
 Local Open Scope R_scope.
 
 Lemma nd_PI_pos : 0 < PI. Proof. apply PI_RGT_0. Qed.
 
+(* ---- canonical forms ---- *)
+Lemma vfr_nd_1_eq r : vfr_nd_1 r = 2 * r.
+Proof. unfold vfr_nd_1. field. Qed.
+Lemma vfr_nd_2_eq r : vfr_nd_2 r = PI * (r * r).
+Proof. unfold vfr_nd_2. field. Qed.
+Lemma vfr_nd_3_eq r : vfr_nd_3 r = 4 / 3 * PI * (r * r * r).
+Proof. unfold vfr_nd_3. field. Qed.
+
+Lemma rfv_nd_1_eq v : rfv_nd_1 v = v / 2.
+Proof. unfold rfv_nd_1. field. Qed.
+Lemma rfv_nd_2_eq v : rfv_nd_2 v = sqrt (v / PI).
+Proof. unfold rfv_nd_2. first [reflexivity | f_equal; field; apply PI_neq0]. Qed.
+Lemma rfv_nd_3_eq v : rfv_nd_3 v = pow_nn (3 * v / (4 * PI)) (1 / 3).
+Proof.
+  unfold rfv_nd_3.
+  first [ reflexivity
+        | match goal with |- pow_nn ?x ?y = pow_nn ?x' ?y' =>
+            replace x with x' by (field; apply PI_neq0); replace y with y' by field; reflexivity end ].
+Qed.
+
 (* volume is non-negative for non-negative radii *)
 Lemma vfr_nd_1_nonneg r : 0 <= r -> 0 <= vfr_nd_1 r.
-Proof. intros Hr. unfold vfr_nd_1. lra. Qed.
+Proof. intros Hr. rewrite vfr_nd_1_eq. lra. Qed.
 
 Lemma vfr_nd_2_nonneg r : 0 <= r -> 0 <= vfr_nd_2 r.
 Proof.
-  intros Hr. unfold vfr_nd_2. pose proof nd_PI_pos as HP.
-  apply Rmult_le_pos; [lra|]. apply pow_le; exact Hr.
+  intros Hr. rewrite vfr_nd_2_eq. pose proof nd_PI_pos as HP.
+  apply Rmult_le_pos; [lra|]. apply Rmult_le_pos; exact Hr.
 Qed.
 
 Lemma vfr_nd_3_nonneg r : 0 <= r -> 0 <= vfr_nd_3 r.
 Proof.
-  intros Hr. unfold vfr_nd_3. pose proof nd_PI_pos as HP.
-  apply Rmult_le_pos; [|apply pow_le; exact Hr].
-  apply Rmult_le_pos; [lra|]. left. apply Rinv_0_lt_compat. lra.
+  intros Hr. rewrite vfr_nd_3_eq. pose proof nd_PI_pos as HP.
+  apply Rmult_le_pos; [lra|]. apply Rmult_le_pos; [apply Rmult_le_pos|]; exact Hr.
 Qed.
 
 (* radius is non-negative for non-negative volumes *)
 Lemma rfv_nd_1_nonneg v : 0 <= v -> 0 <= rfv_nd_1 v.
-Proof. intros Hv. unfold rfv_nd_1. lra. Qed.
+Proof. intros Hv. rewrite rfv_nd_1_eq. lra. Qed.
 
 Lemma rfv_nd_2_nonneg v : 0 <= v -> 0 <= rfv_nd_2 v.
-Proof. intros Hv. unfold rfv_nd_2. apply sqrt_pos. Qed.
+Proof. intros Hv. rewrite rfv_nd_2_eq. apply sqrt_pos. Qed.
 
 Lemma rfv_nd_3_nonneg v : 0 <= v -> 0 <= rfv_nd_3 v.
-Proof. intros Hv. unfold rfv_nd_3. apply pow_nn_nonneg. Qed.
+Proof. intros Hv. rewrite rfv_nd_3_eq. apply pow_nn_nonneg. Qed.
 
 (* volume -> radius -> volume *)
 Lemma vr_nd_1 v : 0 <= v -> vfr_nd_1 (rfv_nd_1 v) = v.
-Proof. intros _. unfold vfr_nd_1, rfv_nd_1. field. Qed.
+Proof. intros _. rewrite vfr_nd_1_eq, rfv_nd_1_eq. field. Qed.
 
 Lemma vr_nd_2 v : 0 <= v -> vfr_nd_2 (rfv_nd_2 v) = v.
 Proof.
-  intros Hv. unfold vfr_nd_2, rfv_nd_2. pose proof nd_PI_pos as HP.
-  replace (sqrt (v / PI) ^ 2) with (sqrt (v / PI) * sqrt (v / PI)) by ring.
+  intros Hv. rewrite vfr_nd_2_eq, rfv_nd_2_eq. pose proof nd_PI_pos as HP.
   rewrite sqrt_sqrt; [field; lra|].
   apply Rmult_le_pos; [exact Hv|left; apply Rinv_0_lt_compat; exact HP].
 Qed.
 
 Lemma vr_nd_3 v : 0 <= v -> vfr_nd_3 (rfv_nd_3 v) = v.
 Proof.
-  intros Hv. unfold vfr_nd_3, rfv_nd_3. pose proof nd_PI_pos as HP.
-  rewrite cube_pow_nn_third; [field; lra|].
-  apply Rmult_le_pos; [lra|left; apply Rinv_0_lt_compat; lra].
+  intros Hv. rewrite vfr_nd_3_eq, rfv_nd_3_eq. pose proof nd_PI_pos as HP.
+  set (x := 3 * v / (4 * PI)).
+  assert (Hx : 0 <= x).
+  { unfold x. apply Rmult_le_pos; [lra|left; apply Rinv_0_lt_compat; lra]. }
+  replace (pow_nn x (1 / 3) * pow_nn x (1 / 3) * pow_nn x (1 / 3)) with (pow_nn x (1 / 3) ^ 3) by ring.
+  rewrite (cube_pow_nn_third x Hx). unfold x. field. lra.
 Qed.
 
 (* radius -> volume -> radius *)
 Lemma rv_nd_1 r : 0 <= r -> rfv_nd_1 (vfr_nd_1 r) = r.
-Proof. intros _. unfold vfr_nd_1, rfv_nd_1. field. Qed.
+Proof. intros _. rewrite rfv_nd_1_eq, vfr_nd_1_eq. field. Qed.
 
 Lemma rv_nd_2 r : 0 <= r -> rfv_nd_2 (vfr_nd_2 r) = r.
 Proof.
-  intros Hr. unfold vfr_nd_2, rfv_nd_2.
-  replace (PI * r ^ 2 / PI) with (r * r) by (field; apply PI_neq0).
+  intros Hr. rewrite rfv_nd_2_eq, vfr_nd_2_eq.
+  replace (PI * (r * r) / PI) with (r * r) by (field; apply PI_neq0).
   apply sqrt_square; exact Hr.
 Qed.
 
 Lemma rv_nd_3 r : 0 <= r -> rfv_nd_3 (vfr_nd_3 r) = r.
 Proof.
-  intros Hr. unfold vfr_nd_3, rfv_nd_3.
-  match goal with |- pow_nn ?x _ = _ => replace x with (r ^ 3) by (field; apply PI_neq0) end.
+  intros Hr. rewrite rfv_nd_3_eq, vfr_nd_3_eq.
+  replace (3 * (4 / 3 * PI * (r * r * r)) / (4 * PI)) with (r ^ 3) by (field; apply PI_neq0).
   apply pow_nn_cube_third; exact Hr.
 Qed.
